@@ -317,6 +317,13 @@ def check_frame(spec: Dict[str, Any], W: int) -> Tuple[Dict[str, int], List[Dict
             # own name for "a titled panel grows beyond its explicit `width`", so that it cannot crowd out other causes
             name = "c08.frame_rectangle"
             if spec.get("title") and given is not None and avail < w <= W:
+                from vf.rtc.specnative import cells as _title_cells
+
+                if avail < _title_cells(spec["title"]) + 6:
+                    # below the structural minimum of a *titled* panel: corners (2) + one border cell each
+                    # side (2) + the title with its two spaces — outside the property's precondition
+                    out.hit("c08.precondition.title_needs_room")
+                    return out.clauses, out.bad
                 name = "c08.frame_rectangle.title_vs_width"
                 out.hit(name)
             out.fail(name, "panel is %d cells wide, available %d = min(console %d, width %s) (expand=%s, title %r)"
